@@ -190,3 +190,22 @@ mutant("c06-header-accounted-early", "C06", "C06.account.decode_from_to", FD,
 mutant("c06-closure-short-count", "C06", "C06.prov.drain", DB,
        "            vec.extend_from_slice(buf);\n                    (buf.len(), Ok(()))", "            vec.extend_from_slice(buf);\n                    (buf.len().saturating_sub(1), Ok(()))")
 benign("c06-rename-written", "C06", DB, "written1", "accepted_first", count=4)
+
+# ---- C08 -------------------------------------------------------------------------------
+FCOMP = "ruzstd/src/encoding/frame_compressor.rs"
+mutant("c08-hash-n2-instead-of-written", "C08", "C08.pair.hash-on-removal", DB, "                self.hash.write(&slice2[..written2]);", "                self.hash.write(&slice2[..n2]);")
+mutant("c08-second-segment-not-hashed", "C08", "C08.pair.hash-on-removal", DB, "            self.hash.write(slice1);\n            self.hash.write(slice2);", "            self.hash.write(slice1);")
+mutant("c08-hash-after-error", "C08", "C08.pair.hash-on-removal", DB,
+       "            #[cfg(feature = \"hash\")]\n            self.hash.write(&slice1[..written1]);\n            drain_guard.amount += written1;\n\n            // Apparently this is what clippy thinks is the best way of expressing this\n            res1?;",
+       "            drain_guard.amount += written1;\n\n            // Apparently this is what clippy thinks is the best way of expressing this\n            res1?;\n            #[cfg(feature = \"hash\")]\n            self.hash.write(&slice1[..written1]);")
+mutant("c08-be-trailer", "C08", "C08.agree.trunc-endian", FCOMP, ".write_all(&(content_checksum as u32).to_le_bytes())", ".write_all(&(content_checksum as u32).to_be_bytes())")
+mutant("c08-high-bits", "C08", "C08.agree.trunc-endian", FD, "        Some(cksum_64bit as u32)", "        Some((cksum_64bit >> 32) as u32)")
+mutant("c08-no-reseed", "C08", "C08.dom.reseed", FCOMP, "        #[cfg(feature = \"hash\")]\n        {\n            self.hasher = XxHash64::with_seed(0);\n        }\n        let source", "        let source")
+mutant("c08-seed-nonzero", "C08", "C08.agree.trunc-endian", DB, "            self.hash = twox_hash::XxHash64::with_seed(0);", "            self.hash = twox_hash::XxHash64::with_seed(1);")
+mutant("c08-hash-before-truncate", "C08", "C08.pair.hash-input", FCOMP,
+       "            uncompressed_data.resize(read_bytes, 0);\n            // As we read, hash that data too\n            #[cfg(feature = \"hash\")]\n            self.hasher.write(&uncompressed_data);",
+       "            // As we read, hash that data too\n            #[cfg(feature = \"hash\")]\n            self.hasher.write(&uncompressed_data);\n            uncompressed_data.resize(read_bytes, 0);")
+mutant("c08-checksum-without-flag", "C08", "C08.read.checksum", FD,
+       "                state.frame_finished = true;\n                if state.frame_header.descriptor.content_checksum_flag() {\n                    let mut chksum = [0u8; 4];",
+       "                state.frame_finished = true;\n                if state.frame_header.descriptor.content_checksum_flag() || state.block_counter == 7 {\n                    let mut chksum = [0u8; 4];")
+mutant("c08-finished-without-checksum", "C08", "C08.read.checksum", FD, "            state.frame_finished && state.check_sum.is_some()", "            state.frame_finished || state.check_sum.is_some()")
